@@ -39,12 +39,14 @@ template <class T> static Matrix33<T> lib33 (const M2& lin, const LD t[2])
 struct Tally2
 {
     long long cases = 0, transitions = 0, refl = 0, graded = 0, sheared = 0, rot_and_trans = 0, generic = 0, degenerate = 0;
+    long long us_sub = 0, us_recip = 0, us_tiny = 0, us_huge = 0, us_reported = 0;
     long long tiny = 0, tiny_reported = 0, sing_exact = 0, sing_residue = 0, sing_residue_reported = 0, sing_residue_decomposed = 0;
     double    w_recompose = 0, w_ortho = 0;
     void merge (const Tally2& o)
     {
         cases += o.cases; transitions += o.transitions; refl += o.refl; graded += o.graded; sheared += o.sheared; rot_and_trans += o.rot_and_trans;
         generic += o.generic; degenerate += o.degenerate;
+        us_sub += o.us_sub; us_recip += o.us_recip; us_tiny += o.us_tiny; us_huge += o.us_huge; us_reported += o.us_reported;
         tiny += o.tiny; tiny_reported += o.tiny_reported; sing_exact += o.sing_exact; sing_residue += o.sing_residue;
         sing_residue_reported += o.sing_residue_reported; sing_residue_decomposed += o.sing_residue_decomposed;
         w_recompose = std::max (w_recompose, o.w_recompose); w_ortho = std::max (w_ortho, o.w_ortho);
@@ -56,6 +58,9 @@ template <class T> struct Shrt2d
     typedef Matrix33<T> M33;
     typedef Vec2<T>     V2;
     const LD            eps = ex::eps<T> ();
+    // site suffix naming the input class (empty for the original families)
+    std::string sfx;
+    std::string st (const std::string& site) const { return sfx.empty () ? site : site + sfx; }
 
     static LD recomposeErr (const V2& s, T h, const M2& Rl, const M2& Mlin)
     {
@@ -68,7 +73,7 @@ template <class T> struct Shrt2d
 
     template <class InF> void hrt (const char* fn, InF&& in, const M33& got, const M2& HR, const M2& Rc, const M33& M, LD tolL, LD tolT) const
     {
-        std::string site = fn;
+        std::string site = st (fn);
         LD dl = ref::maxdiff (ref::fromLib<2> (got), HR);
         if (!(dl <= tolL)) R ().fail (site + ".linear", in (), "H*R within " + ref::fmtE (tolL), ref::fmtE (dl) + " off; got " + ref::fmtLib<3> (got));
         LD t0 = M[2][0], t1 = M[2][1];
@@ -87,7 +92,9 @@ template <class T> struct Shrt2d
 
     // mayReport: a 1e-30 scale may legitimately be reported as degenerate instead of decomposed (as in 3-D); if it is
     // decomposed, every relation below holds with the usual bounds (the rows are processed relative to their own length)
-    template <class TagF> void regular (const Shrt2& f, TagF&& tagf, Tally2& t, bool mayReport = false) const
+    // gridAbs (uniformly scaled families only, otherwise 0): see c12_shrt3d.hpp regular() - entries of M and the returned scales
+    // in the subnormal range are rounded to multiples of denorm_min, so "eps * max|M|" becomes "eps * max|M| + denorm_min".
+    template <class TagF> void regular (const Shrt2& f, TagF&& tagf, Tally2& t, bool mayReport = false, LD gridAbs = 0) const
     {
         const M33 M    = lib33<T> (lin2 (f), f.t);
         const M2  Mlin = ref::fromLib<2> (M);
@@ -98,7 +105,7 @@ template <class T> struct Shrt2d
         Hc[1][0] = f.xy;
         const M2 HR   = ref::mul (Hc, Rc);
         const LD cond = std::max (fabsl (f.s[0]), fabsl (f.s[1])) / std::min (fabsl (f.s[0]), fabsl (f.s[1])) * (1 + fabsl (f.xy));
-        const LD nrm = ref::maxabs (Mlin), tol = 16 * cond * eps * nrm;
+        const LD nrm = ref::maxabs (Mlin), tol = 16 * cond * eps * nrm + 16 * cond * gridAbs;
         auto in = [&] () { return "T=" + std::string (ref::tname<T> ()) + " " + tagf () + " M=" + ref::fmtLib<3> (M); };
         ++t.cases;
 
@@ -111,60 +118,60 @@ template <class T> struct Shrt2d
             ++t.tiny_reported;
             bool thrown = false;
             try { V2 a, d; T b, c; extractSHRT (M, a, b, c, d, true); } catch (const std::domain_error&) { thrown = true; } catch (...) {}
-            if (!thrown) R ().fail ("extractSHRT(Matrix33).exc-true-vs-exc-false", in (), "std::domain_error (exc=false returned false)", "no domain_error");
+            if (!thrown) R ().fail (st ("extractSHRT(Matrix33).exc-true-vs-exc-false"), in (), "std::domain_error (exc=false returned false)", "no domain_error");
             return;
         }
-        if (!ok) { R ().fail ("extractSHRT(Matrix33).regular-matrix-reported-degenerate", in (), "true", "false/throw"); return; }
+        if (!ok) { R ().fail (st ("extractSHRT(Matrix33).regular-matrix-reported-degenerate"), in (), "true", "false/throw"); return; }
         {
             LD e = recomposeErr (s, h, ref::rot2 (r), Mlin);
             t.w_recompose = std::max (t.w_recompose, (double) (e / (cond * eps * nrm)));
-            if (!(e <= tol)) R ().fail ("extractSHRT(Matrix33).recompose", in (), "S*H*R(r) within " + ref::fmtE (tol), vf::Msg () << ref::fmtE (e) << " off; s=" << fmtVec (s) << " h=" << h << " r=" << r);
-            if (!(ex::same (tr.x, M[2][0]) && ex::same (tr.y, M[2][1]))) R ().fail ("extractSHRT(Matrix33).translation", in (), vf::Msg () << "(" << M[2][0] << " " << M[2][1] << ")", fmtVec (tr));
+            if (!(e <= tol)) R ().fail (st ("extractSHRT(Matrix33).recompose"), in (), "S*H*R(r) within " + ref::fmtE (tol), vf::Msg () << ref::fmtE (e) << " off; s=" << fmtVec (s) << " h=" << h << " r=" << r);
+            if (!(ex::same (tr.x, M[2][0]) && ex::same (tr.y, M[2][1]))) R ().fail (st ("extractSHRT(Matrix33).translation"), in (), vf::Msg () << "(" << M[2][0] << " " << M[2][1] << ")", fmtVec (tr));
             try
             {
                 V2 s1, t1; T h1, r1;
                 bool ok1 = extractSHRT (M, s1, h1, r1, t1);
-                if (!(ok1 && sameVec (s1, s) && sameVec (t1, tr) && ex::same (h1, h) && ex::same (r1, r))) R ().fail ("extractSHRT(Matrix33).exc-true-vs-exc-false", in ());
+                if (!(ok1 && sameVec (s1, s) && sameVec (t1, tr) && ex::same (h1, h) && ex::same (r1, r))) R ().fail (st ("extractSHRT(Matrix33).exc-true-vs-exc-false"), in ());
             }
-            catch (...) { R ().fail ("extractSHRT(Matrix33).throws-on-regular-matrix", in ()); }
+            catch (...) { R ().fail (st ("extractSHRT(Matrix33).throws-on-regular-matrix"), in ()); }
         }
         M33  W = M;
         V2   s2;
         T    h2 = 9;
         bool ok2 = false;
         try { ok2 = extractAndRemoveScalingAndShear (W, s2, h2, false); } catch (...) {}
-        if (!ok2) { R ().fail ("extractAndRemoveScalingAndShear(Matrix33).regular-matrix-reported-degenerate", in ()); return; }
+        if (!ok2) { R ().fail (st ("extractAndRemoveScalingAndShear(Matrix33).regular-matrix-reported-degenerate"), in ()); return; }
         const M2 Rres = ref::fromLib<2> (W);
         {
             LD oe = ref::orthoErr (Rres), dt = ref::det (Rres), e = recomposeErr (s2, h2, Rres, Mlin);
             t.w_ortho = std::max (t.w_ortho, (double) (oe / eps));
             t.w_recompose = std::max (t.w_recompose, (double) (e / (cond * eps * nrm)));
-            if (!(oe <= 16 * eps)) R ().fail ("extractAndRemoveScalingAndShear(Matrix33).rotation-orthonormal", in (), "<= 16 eps", ref::fmtE (oe / eps) + " eps");
-            if (!(fabsl (dt - 1) <= 48 * eps)) R ().fail ("extractAndRemoveScalingAndShear(Matrix33).rotation-det+1", in (), "+1 within 48 eps", ref::fmtE (dt));
-            if (!(e <= tol)) R ().fail ("extractAndRemoveScalingAndShear(Matrix33).recompose", in (), "S*H*R within " + ref::fmtE (tol), vf::Msg () << ref::fmtE (e) << " off; s=" << fmtVec (s2) << " h=" << h2 << " R=" << ref::fmtLib<2> (W));
-            if (!(frameOK (W) && ex::same (W[2][0], M[2][0]) && ex::same (W[2][1], M[2][1]))) R ().fail ("extractAndRemoveScalingAndShear(Matrix33).keeps-translation", in (), "row 2 / column 2 untouched", ref::fmtLib<3> (W));
+            if (!(oe <= 16 * eps)) R ().fail (st ("extractAndRemoveScalingAndShear(Matrix33).rotation-orthonormal"), in (), "<= 16 eps", ref::fmtE (oe / eps) + " eps");
+            if (!(fabsl (dt - 1) <= 48 * eps)) R ().fail (st ("extractAndRemoveScalingAndShear(Matrix33).rotation-det+1"), in (), "+1 within 48 eps", ref::fmtE (dt));
+            if (!(e <= tol)) R ().fail (st ("extractAndRemoveScalingAndShear(Matrix33).recompose"), in (), "S*H*R within " + ref::fmtE (tol), vf::Msg () << ref::fmtE (e) << " off; s=" << fmtVec (s2) << " h=" << h2 << " R=" << ref::fmtLib<2> (W));
+            if (!(frameOK (W) && ex::same (W[2][0], M[2][0]) && ex::same (W[2][1], M[2][1]))) R ().fail (st ("extractAndRemoveScalingAndShear(Matrix33).keeps-translation"), in (), "row 2 / column 2 untouched", ref::fmtLib<3> (W));
         }
         {
             V2 s3, s4; T h4 = 9;
             bool o3 = false, o4 = false;
             try { o3 = extractScaling (M, s3, false); o4 = extractScalingAndShear (M, s4, h4, false); } catch (...) {}
-            if (!o3) R ().fail ("extractScaling(Matrix33).regular-matrix-reported-degenerate", in ());
-            else if (!sameVec (s3, s2)) { LD e = recomposeErr (s3, h2, Rres, Mlin); if (!(e <= tol)) R ().fail ("extractScaling(Matrix33).recompose", in (), "within " + ref::fmtE (tol), ref::fmtE (e) + " off; s=" + fmtVec (s3)); }
-            if (!o4) R ().fail ("extractScalingAndShear(Matrix33).regular-matrix-reported-degenerate", in ());
-            else if (!(sameVec (s4, s2) && ex::same (h4, h2))) { LD e = recomposeErr (s4, h4, Rres, Mlin); if (!(e <= tol)) R ().fail ("extractScalingAndShear(Matrix33).recompose", in (), "within " + ref::fmtE (tol), ref::fmtE (e) + " off"); }
+            if (!o3) R ().fail (st ("extractScaling(Matrix33).regular-matrix-reported-degenerate"), in ());
+            else if (!sameVec (s3, s2)) { LD e = recomposeErr (s3, h2, Rres, Mlin); if (!(e <= tol)) R ().fail (st ("extractScaling(Matrix33).recompose"), in (), "within " + ref::fmtE (tol), ref::fmtE (e) + " off; s=" + fmtVec (s3)); }
+            if (!o4) R ().fail (st ("extractScalingAndShear(Matrix33).regular-matrix-reported-degenerate"), in ());
+            else if (!(sameVec (s4, s2) && ex::same (h4, h2))) { LD e = recomposeErr (s4, h4, Rres, Mlin); if (!(e <= tol)) R ().fail (st ("extractScalingAndShear(Matrix33).recompose"), in (), "within " + ref::fmtE (tol), ref::fmtE (e) + " off"); }
         }
         // sansScaling / removeScaling = H*R*T
         {
-            const LD tolH = 16 * cond * eps * std::max ((LD) 1, ref::maxabs (HR));
+            const LD tolH = 16 * cond * eps * std::max ((LD) 1, ref::maxabs (HR)) + (gridAbs > 0 ? 16 * cond * (gridAbs / nrm) * std::max ((LD) 1, ref::maxabs (HR)) : (LD) 0);
             const LD tolT = 16 * eps * std::max (fabsl ((LD) M[2][0]), fabsl ((LD) M[2][1]));
             try
             {
                 hrt ("sansScaling(Matrix33)", in, sansScaling (M, false), HR, Rc, M, tolH, tolT);
                 M33 b = M;
-                if (!removeScaling (b, false)) R ().fail ("removeScaling(Matrix33).regular-matrix-reported-degenerate", in ());
+                if (!removeScaling (b, false)) R ().fail (st ("removeScaling(Matrix33).regular-matrix-reported-degenerate"), in ());
                 else hrt ("removeScaling(Matrix33)", in, b, HR, Rc, M, tolH, tolT);
             }
-            catch (...) { R ().fail ("sansScaling(Matrix33).throws-on-regular-matrix", in ()); }
+            catch (...) { R ().fail (st ("sansScaling(Matrix33).throws-on-regular-matrix"), in ()); }
         }
         // sansScalingAndShear / removeScalingAndShear = R*T
         {
@@ -172,18 +179,18 @@ template <class T> struct Shrt2d
                 if (sameMat<3> (q, W)) return;
                 M2 Rq = ref::fromLib<2> (q);
                 if (!(ref::orthoErr (Rq) <= 16 * eps) || !(fabsl (ref::det (Rq) - 1) <= 48 * eps) || !(recomposeErr (s2, h2, Rq, Mlin) <= tol))
-                    R ().fail (std::string (site) + ".rotation", in (), "the residual rotation", ref::fmtLib<3> (q));
-                if (!(frameOK (q) && ex::same (q[2][0], M[2][0]) && ex::same (q[2][1], M[2][1]))) R ().fail (std::string (site) + ".translation", in (), "row 2 of the input", ref::fmtLib<3> (q));
+                    R ().fail (st (std::string (site) + ".rotation"), in (), "the residual rotation", ref::fmtLib<3> (q));
+                if (!(frameOK (q) && ex::same (q[2][0], M[2][0]) && ex::same (q[2][1], M[2][1]))) R ().fail (st (std::string (site) + ".translation"), in (), "row 2 of the input", ref::fmtLib<3> (q));
             };
             try
             {
                 judge ("sansScalingAndShear(Matrix33)", sansScalingAndShear (M, false));
                 judge ("sansScalingAndShear(Matrix33)", sansScalingAndShear (M));
                 M33 b = M;
-                if (!removeScalingAndShear (b, false)) R ().fail ("removeScalingAndShear(Matrix33).regular-matrix-reported-degenerate", in ());
+                if (!removeScalingAndShear (b, false)) R ().fail (st ("removeScalingAndShear(Matrix33).regular-matrix-reported-degenerate"), in ());
                 else judge ("removeScalingAndShear(Matrix33)", b);
             }
-            catch (...) { R ().fail ("sansScalingAndShear(Matrix33).throws-on-regular-matrix", in ()); }
+            catch (...) { R ().fail (st ("sansScalingAndShear(Matrix33).throws-on-regular-matrix"), in ()); }
         }
         t.transitions += 12;
     }
@@ -381,6 +388,38 @@ template <class T> static bool run2d (Tally2& G)
                 chk.regular (f, [&] { return tagOf (f); }, G, true);
             }
     }
+    // uniformly scaled: well-conditioned members of the main family with the linear part multiplied by an exact power of two,
+    // down until every entry of the upper 2x2 is subnormal (largest entry below 1/max: its reciprocal overflows although every
+    // quotient by it is O(1)), down to tiny normal entries, and up near max/8. Conditioning is unchanged, so the relations of
+    // regular() hold with its bounds (subnormal grid: gridAbs); the scaled-down levels are the statement's "tiny scales"
+    // class and may be reported instead of decomposed (as the 1e-30 scales above), the scaled-up level must be decomposed.
+    {
+        const std::vector<int> KS = sizeof (T) == 4 ? std::vector<int>{-137, -133, -131, -120, -100, 120} : std::vector<int>{-1060, -1033, -1029, -1027, -1015, -900, 1016};
+        static const LD SB[6] = {1, -1, 3, -3, 0.5L, -0.25L};
+        const LD        tmin = std::numeric_limits<T>::min (), tmax = std::numeric_limits<T>::max (), dmin = std::numeric_limits<T>::denorm_min ();
+        Shrt2d<T> chkSub, chkTiny, chkHuge;
+        chkSub.sfx  = ".uniformly-scaled.all-entries-subnormal";
+        chkTiny.sfx = ".uniformly-scaled.tiny-normal-entries";
+        chkHuge.sfx = ".uniformly-scaled.huge-entries";
+        const double    keep_rec = G.w_recompose, keep_ortho = G.w_ortho; // the "worst" notes belong to the main family
+        const long long keep_rep = G.tiny_reported;
+        for (int k : KS)
+            for (int si = 0; si < 36; ++si)
+                for (int hi_ = 0; hi_ < 5; ++hi_)
+                    for (int a = -12; a <= 12; ++a)
+                    {
+                        Shrt2 f;
+                        f.s[0] = ldexpl (SB[si % 6], k); f.s[1] = ldexpl (SB[si / 6], k); f.xy = SH2[hi_]; f.th = a * ref::PI_LD / 6; f.t[0] = 3; f.t[1] = 5;
+                        const LD nrmL = ref::maxabs (lin2 (f));
+                        const Shrt2d<T>* ck;
+                        if (k > 0) { ++G.us_huge; ck = &chkHuge; }
+                        else if (nrmL < tmin) { ++G.us_sub; ck = &chkSub; if (nrmL * tmax < 1) ++G.us_recip; }
+                        else { ++G.us_tiny; ck = &chkTiny; }
+                        ck->regular (f, [&] { return "2^" + std::to_string (k) + " * " + tagOf (f); }, G, k < 0, dmin);
+                    }
+        G.us_reported += G.tiny_reported - keep_rep; G.tiny_reported = keep_rep;
+        G.w_recompose = keep_rec; G.w_ortho = keep_ortho;
+    }
     // exactly singular linear parts without a zero row
     for (int i = 0; i < 256; ++i)
     {
@@ -411,13 +450,18 @@ void stage_shrt2d ()
     R ().cls ("shrt2d.zero-scale(guard fires)", G.degenerate);
     R ().cls ("shrt2d.plain.generic", G.generic);
     R ().cls ("shrt2d.scale-1e-30", G.tiny);
+    R ().cls ("shrt2d.uniformly-scaled.all-entries-subnormal", G.us_sub);
+    R ().cls ("shrt2d.uniformly-scaled.all-entries-subnormal.reciprocal-of-largest-entry-overflows", G.us_recip);
+    R ().cls ("shrt2d.uniformly-scaled.tiny-normal-entries", G.us_tiny);
+    R ().cls ("shrt2d.uniformly-scaled.huge-entries(near max/8)", G.us_huge);
+    R ().add ("uniformly_scaled_down_reported_as_degenerate(2-D)", G.us_reported);
     R ().cls ("shrt2d.singular-no-zero-row.exactly-zero-scale-after-orthogonalisation(guard must fire)", G.sing_exact);
     R ().cls ("shrt2d.singular-no-zero-row.rounding-residue-scale(counted, held to consistency only)", G.sing_residue);
     R ().add ("tiny_scale_reported_as_degenerate(2-D)", G.tiny_reported);
     R ().add ("singular_rounding_residue_reported(2-D, not judged)", G.sing_residue_reported);
     R ().add ("singular_rounding_residue_decomposed(2-D, not judged)", G.sing_residue_decomposed);
     R ().sample ("2-D: s=(1,1) xy=0 r=0.7 t=(3,5): sansScaling must return translation (3,5); t*R = (-0.927,5.757)");
-    std::string b = "8^2 scales x 5 shears x k*pi/6 (k in [-12,12]" + std::string (R ().thorough () ? ", plus b*pi/2 +- 10^-j" : "") + ") x L(2)^2 translations, float and double; zero scales reported by all eight entry points; 1e-30 scales; all singular 2x2 parts over {-1,0,1,2} without a zero row";
+    std::string b = "8^2 scales x 5 shears x k*pi/6 (k in [-12,12]" + std::string (R ().thorough () ? ", plus b*pi/2 +- 10^-j" : "") + ") x L(2)^2 translations, float and double; zero scales reported by all eight entry points; 1e-30 scales; 6^2 scales x 5 shears x 25 angles uniformly scaled by 6 (float) / 7 (double) powers of two (all-subnormal, tiny normal, near max/8); all singular 2x2 parts over {-1,0,1,2} without a zero row";
     if (ok) R ().stage_done (b); else R ().stage_partial (b);
 }
 
